@@ -1,7 +1,8 @@
 """Registry of delivered property checks (drives MANIFEST.json and vcheck)."""
 import importlib
 
-CONTRACT_MODULES = ["contracts.c_bip32", "contracts.c_keys", "contracts.c_wallet_utils"]
+CONTRACT_MODULES = ["contracts.c_bip32", "contracts.c_keys", "contracts.c_wallet_utils", "contracts.c_base_wallet",
+                    "contracts.c_bip85"]
 
 COMMON_TB = [
     "H1-H4: hashlib/hmac/pbkdf2/unicodedata are deterministic total functions with the standard output lengths (uninterpreted, same symbols in code and spec)",
